@@ -28,6 +28,14 @@ PROPS = {
         'assumptions': ['acyclic dependency graphs (cycles deadlock); real interleavings inside sync primitives are sampled, not enumerated'],
         'rule': 'random acyclic programs (1-8 dependencies, 1-3 concurrent roots, 0-2 calls per body, parallel/serial/ctx forms, repeats, five outcome kinds, three function signatures) under a random gate-release schedule (5/6 gated, 1/6 free-running); distinct = different canonical (program, observed trace); trivial = trace of <= 3 events',
     },
+    'C11': {
+        'lean': ['MageModel.Props.C11', 'MageModel.Bridge.Invoke'],
+        'needs_mage': True,
+        'streams': [S('c11', 60, 500)],
+        'trusted': ['os/exec environment de-duplication (last binding wins) and the kernel delivering bytes written to inherited descriptors', 'Go\'s flag package (transcribed in Gen/Flags.lean and diffed)', 'time.ParseDuration / Duration.String (answers recorded; only their round trip for positive durations is assumed)'],
+        'assumptions': ['the caller\'s environment has unique keys', 'stream integrity and ordering are observed (tie only), not proved', 'known finding C11:explicit-false-or-zero-flag-vs-env'],
+        'rule': 'probe target (accessors, context deadline, cwd, full environment, stdin digest) and payload target (pattern bytes on stdout/stderr, 0 B .. 4 MiB) run through mage and the -compile\'d binary under random combinations of -v/-debug/-t/-gocmd spellings, MAGEFILE_* variables with valid and invalid values, extra variables with \'=\', spaces, empty values, GOOS/GOARCH, five -d and three -w spellings over a plain and a magefiles-directory layout; plus mage-vs-compiled pairs judged by the property itself; distinct = different canonical oracle input',
+    },
     'C13': {
         'lean': ['MageModel.Props.C13', 'MageModel.Bridge.Deps'],
         'streams': [S('deps', 150, 3000)],
